@@ -13,7 +13,7 @@ use simcore::{Alg, Rng};
 
 use crate::recipe::tlv;
 
-static RSA_POOL: [&[u8]; 6] = [
+static RSA_POOL: [&[u8]; 7] = [
     include_bytes!("../../../fixtures/rsa/rsa2048a.pk8.der"),
     include_bytes!("../../../fixtures/rsa/rsa2048b.pk8.der"),
     include_bytes!("../../../fixtures/rsa/rsa3072a.pk8.der"),
@@ -23,7 +23,11 @@ static RSA_POOL: [&[u8]; 6] = [
     include_bytes!("../../../fixtures/rsa/rsa8192a.pk8.der"),
     // public exponent 2^32 + 1: the widest both back ends document as acceptable (33 bits)
     include_bytes!("../../../fixtures/rsa/rsa2048e33.pk8.der"),
+    // 9216 bits: larger than either back end loads; only ever held by a simulated remote
+    // signer (an HSM is free to hold such a key), never drawn by `draw` / `draw_common`
+    include_bytes!("../../../fixtures/rsa/rsa9216a.pk8.der"),
 ];
+pub const RSA_POOL_REMOTE_ONLY: u8 = 6;
 
 /// How a key is provisioned; part of the explicit trace.
 #[derive(Clone, Debug, PartialEq, Eq, Serialize, Deserialize)]
